@@ -1358,7 +1358,7 @@ impl std::fmt::Display for ArithExpr {
         match self {
             ArithExpr::Variable(name) => write!(f, "{name}"),
             ArithExpr::Constant(val) => write!(f, "{val}"),
-            ArithExpr::FloatConstant(bits) => write!(f, "{}", f64::from_bits(*bits)),
+            ArithExpr::FloatConstant(bits) => write!(f, "{:?}", f64::from_bits(*bits)),
             ArithExpr::Binary { op, left, right } => {
                 let parent_prec = op.precedence();
 
@@ -1476,7 +1476,7 @@ impl std::fmt::Display for Term {
             Term::Constant(val) => write!(f, "{val}"),
             Term::StringConstant(s) => write!(f, "\"{s}\""),
             Term::BoolConstant(b) => write!(f, "{b}"),
-            Term::FloatConstant(val) => write!(f, "{val}"),
+            Term::FloatConstant(val) => write!(f, "{val:?}"),
             Term::Placeholder => write!(f, "_"),
             Term::Arithmetic(expr) => write!(f, "{expr}"),
             Term::Aggregate(func, var) => {
